@@ -86,7 +86,7 @@ class C10(HistoryProperty):
     NONTRIVIAL_MEASURE = "history_mixed_outcomes"
 
     def gen_case(self, rng, tier):
-        cfg = gen.swarm_cfg(rng, on=("dsclass", "namespace"))
+        cfg = gen.swarm_cfg(rng, on=("dsclass", "namespace", "fapp"))
         cfg["namespace_keys"] = True
         cfg["effect_params"] = rng.random() < 0.4  # effects that are Evaluatables reading options of their own
         spec = gen.gen_spec(rng, cfg)
